@@ -17,6 +17,7 @@ import PqlModel.Spec.LexOracle
 import PqlModel.Spec.ParseOracle
 import PqlModel.Spec.WalkOracle
 import PqlModel.Spec.CompileOracle
+import PqlModel.Spec.Intended
 import PqlModel.Spec.CliSpec
 import PqlModel.Spec.Rel
 import Driver.Proto
@@ -191,7 +192,7 @@ def runOp (op : String) (fields : List String) (impl : String) : Option Verdict 
     let params ← parseParams ps
     let m := fmtCompile (compile params s)
     -- the model's text is compared with the normalised implementation result
-    pure { model := if m == normCompile impl then impl else m, oracle := CompileOracle.clauses s params impl }
+    pure { model := if m == normCompile impl then impl else m, oracle := CompileOracle.clauses s params impl ++ Intended.intendedClauses s params impl }
   | "EVAL", [h, seed] => do
     let s ← Bytes.ofHex h
     let sd ← seed.toNat?
